@@ -17,6 +17,7 @@ TRUSTED_BASE = [
     "dispatch tie: translators/gen_ser_dispatch.py (+ rustmatch.py) reads the arms of the serialize_* methods of DatumSerializer into gen/GenSerDispatch.v; proofs/SerDispatchTie.v ties them to the rows of model/Ser.v (leaf functions proved to be the interpretation of the rows on non-union nodes; 2 arms unclassified: the Decimal arm of serialize_integer and the Union arm of serialize_unit_variant)",
     "Coq 8.16.1 kernel; no axioms (Print Assumptions: closed)",
     "hand-written model/Ser.v of ser/serializer/{mod,struct_or_map,seq_or_tuple,blocks,decimal}.rs, tied by the correspondence run (bytes and outcomes, every permutation)",
+    "SerializeStruct::skip_field events (`(skipfield xF)` in struct field lists): the model's struct presentations have no such event; ocaml/driver.ml drops it, i.e. models it as serde's provided no-op, which is what the crate's record serializer inherits (it does not override skip_field); the expected bytes of these cases are the specification's schema-order bytes (property-level oracle), so an override that changes the outcome is a violation, not only a model difference",
     "extraction (ExtrOcamlBasic) + ocaml/driver.ml; Rust harness (SVal realises any Serializer call tree; sinks: Vec, a writer taking at most K bytes per write call, a fixed-size slice)",
     "sinks: the model's writer is write_all on a byte budget (Ser.write, s_budget); that a writer accepting only a prefix per `write` call receives the same bytes through write_all is std's contract, not modelled further",
 ]
@@ -118,6 +119,12 @@ def run(ctx):
     for rc in cases:
         for line, perm, sub, form in rc.omission_lines(5, 12):
             lines.append(line); meta.append((rc.spec, "ok", perm, sub, form))
+    # ---- derived structs with #[serde(skip_serializing_if)] fields: the impl calls SerializeStruct::skip_field at the field's DECLARED
+    #      position; declared order = any permutation of the schema's, skipped = any subset of the null-holding fields
+    skip_cases = cases + [D.RecCase(rng, s) for s in specs[:60 if ctx["tier"] == "quick" else 2000]]
+    for rc in skip_cases:
+        for line, perm, sub, form in rc.skip_lines(24 if len(rc.idxs) <= 4 else 12, 6, max_lines=60 if ctx["tier"] == "quick" else 200):
+            lines.append(line); meta.append((rc.spec, "ok", perm, sub, form))
     # ---- other sinks: a writer whose `write` takes at most K bytes per call (short writes), a fixed-size slice exactly as
     #      large as the encoding (same bytes), a slice that is too small (Err, never Ok with a truncated record)
     sink_cases = cases + [D.RecCase(rng, s) for s in specs[:40 if ctx["tier"] == "quick" else 1500]]
@@ -199,12 +206,27 @@ def run(ctx):
                 violations.append({"impl_case": line, "what": "a record with a %s field was accepted" % kind, "impl": ri[:200]})
         if len(samples) < 5 and kind == "ok" and sub:
             samples.append({"fields": len(perm), "order": list(perm), "omitted_nullable": list(sub), "form": form})
-    return {"evaluations": len(lines) + len(hlines), "distinct_nontrivial": len(distinct),
+    # ---- natively: derived structs declared out of schema order with skip_serializing_if fields (harness/src/rt_fixed.rs run_skip),
+    #      hand-written schema; expected = the bytes of the struct declared in schema order that presents every field
+    nline = "rtskip %d %d" % (ctx["seed"], 40 if ctx["tier"] == "quick" else 2000)
+    nat = C.run_lines(C.AVRODRIVE, [nline])
+    r = nat[0] if nat else "(crash)"
+    if r.startswith("(ok"):
+        dist["native-derived-structs/out-of-order+skip_serializing_if"] = int(C.parse_sx(r)[0][1])
+    else:
+        pr_ = C.parse_sx(r)
+        msg = C.unhex(pr_[0][1]).decode("utf-8", "replace") if pr_ and pr_[0][0] == "fail" else r
+        violations.append({"impl_case": nline, "what": "a derived struct declared out of schema order whose None fields are skipped (skip_serializing_if) does not give the schema-order bytes: " + msg[:700]})
+    return {"evaluations": len(lines) + len(hlines) + 1, "distinct_nontrivial": len(distinct),
             "rule": "record schemas (2..6 fields: nulls, unions with null, nested records, arrays/maps of records, logical types) x ALL permutations "
                     "of the presented fields (sampled beyond 4 fields) x subsets of omitted nullable fields x {struct, struct variant, map entries, "
                     "map key/value}; expected: exactly the specification's schema-order bytes (extracted spec_encode); duplicate, unknown and "
                     "missing-required injections must fail; never a panic; model vs crate on every case; a directed family of records with "
                     "mostly omittable fields (every omission subset x orders); the same presentations through short-writing sinks and "
-                    "exact-size slices (same bytes) and too-small slices (Err); two- and three-step histories on one configuration: a "
+                    "exact-size slices (same bytes) and too-small slices (Err); struct / struct-variant presentations with SerializeStruct::skip_field events "
+                    "(what derive emits for #[serde(skip_serializing_if)]): declared order = every permutation (sampled beyond 4 fields) x every subset of skipped "
+                    "null-holding fields, the event at the field's declared position; natively (rtskip): 8 derived structs + a struct variant declaring the fields of a "
+                    "hand-written 6-field schema in different orders with 3 skip_serializing_if fields x every subset of None fields, fresh and reused configuration, "
+                    "expected = the bytes of the in-schema-order struct presenting every field; two- and three-step histories on one configuration: a "
                     "presentation failing while fields are buffered, then presentations that must still give the schema-order bytes",
             "samples": samples, "violations": violations, "model_diffs": diffs, "distribution": dict(dist)}
